@@ -32,7 +32,7 @@ var clock int64
 
 func main() {
 	sdk := flag.String("sdk", "v2", "v1 | v2")
-	scenario := flag.String("scenario", "counter", "counter | putonce | mixed | lifecycle | createrace | indexreads")
+	scenario := flag.String("scenario", "counter", "counter | putonce | mixed | lifecycle | createrace | indexreads | condupdate")
 	seed := flag.Int64("seed", 1, "seed")
 	gor := flag.Int("g", 6, "goroutines")
 	n := flag.Int("n", 8, "operations per goroutine")
@@ -215,6 +215,23 @@ func main() {
 					do(g, table("DescribeTable", "tbl1"))
 				case 7:
 					do(g, put(k, g*100+i, map[string]interface{}{"k": "fn", "f": "attribute_not_exists", "args": []interface{}{path("h")}}))
+				}
+			})
+		}
+	case "condupdate": // round i: every goroutine tries SET w = <its number> IF attribute_not_exists(w) on key k<i> at the same moment: one may win
+		for g := 1; g <= *gor; g++ {
+			g := g
+			run(g, func(i int) {
+				u := emptyUpd()
+				u["set"] = []interface{}{map[string]interface{}{"p": pth("w"), "v": val(":me")}}
+				ev := map[string]interface{}{"op": "UpdateItem", "c": "c1", "t": "tbl1", "key": key(fmt.Sprintf("k%d", i)), "upd": u,
+					"cond":  map[string]interface{}{"some": true, "ast": map[string]interface{}{"k": "fn", "f": "attribute_not_exists", "args": []interface{}{path("w")}}},
+					"names": map[string]interface{}{}, "values": map[string]interface{}{":me": N(g)}, "rvf": false}
+				barrier()
+				do(g, ev)
+				barrier()
+				if g == 1 {
+					do(g, get(fmt.Sprintf("k%d", i)))
 				}
 			})
 		}
